@@ -205,4 +205,387 @@ theorem ReadsElem.empty {k : Str} (hk : isName k = true) : ReadsElem (emptyTag k
   rw [this]
   simp [run]
 
+/-! ### escaped text -/
+
+theorem lookupTab_mem {n : Nat} {tb : List (Nat × Str)} {e : Str} (h : lookupTab n tb = some e) : (n, e) ∈ tb := by
+  induction tb with
+  | nil => simp [lookupTab] at h
+  | cons p tb ih =>
+    obtain ⟨k, e'⟩ := p
+    simp only [lookupTab] at h
+    split at h
+    · rename_i hk
+      simp at h; subst h; subst hk; simp
+    · exact List.mem_cons_of_mem _ (ih h)
+
+theorem entryOk_cases {n : Nat} {e : Str} (h : entryOk (n, e) = true) :
+    (n = 0x3C ∧ e = ['&', 'l', 't', ';']) ∨ (n = 0x3E ∧ e = ['&', 'g', 't', ';']) ∨
+    (n = 0x26 ∧ e = ['&', 'a', 'm', 'p', ';']) ∨ (n = 0x22 ∧ e = ['&', 'q', 'u', 'o', 't', ';']) ∨
+    (n = 0x27 ∧ e = ['&', 'a', 'p', 'o', 's', ';']) := by
+  simp only [entryOk, predefined, List.any_cons, List.any_nil, Bool.or_false, Bool.or_eq_true,
+    Bool.and_eq_true, decide_eq_true_eq, beq_iff_eq] at h
+  rcases h with h | h | h | h | h
+  · exact Or.inl ⟨h.1.symm, h.2⟩
+  · exact Or.inr (Or.inl ⟨h.1.symm, h.2⟩)
+  · exact Or.inr (Or.inr (Or.inl ⟨h.1.symm, h.2⟩))
+  · exact Or.inr (Or.inr (Or.inr (Or.inl ⟨h.1.symm, h.2⟩)))
+  · exact Or.inr (Or.inr (Or.inr (Or.inr ⟨h.1.symm, h.2⟩)))
+
+theorem reads_entity (name : Str) (ch : Char) (c0 : Char) (cs : Str) (hname : name = c0 :: cs)
+    (h0 : isNameStart c0 = true) (hcs : ∀ d ∈ cs, isNameChar d = true)
+    (hdec : decodeEnt name predefined = some ch) :
+    ReadsIn ('&' :: name ++ [';']) [ch] [] := by
+  intro cur stack rb hs
+  refine ⟨0, ?_⟩
+  have hne : stack.isEmpty = false := by cases stack <;> simp_all
+  subst hname
+  have hsemi0 : c0 ≠ ';' := by intro h; subst h; revert h0; decide
+  have hhash0 : c0 ≠ '#' := by intro h; subst h; revert h0; decide
+  have key : ∀ (cs acc rest : Str), acc ≠ [] → (∀ d ∈ cs, isNameChar d = true) →
+      run ⟨cur, stack, .ent acc⟩ (cs ++ rest) = run ⟨cur, stack, .ent (acc ++ cs)⟩ rest := by
+    intro cs
+    induction cs with
+    | nil => intro acc rest _ _; simp
+    | cons d cs ih =>
+      intro acc rest hacc hd
+      have hdn := hd d (by simp)
+      have hsemi : d ≠ ';' := by intro h; subst h; revert hdn; decide
+      have hhash : d ≠ '#' := by intro h; subst h; revert hdn; decide
+      have hae : acc.isEmpty = false := by cases acc <;> simp_all
+      have hstep : step ⟨cur, stack, .ent acc⟩ d = .ok ⟨cur, stack, .ent (acc ++ [d])⟩ := by
+        simp [step, stepEnt, hsemi, hae, hdn, hhash]
+      rw [List.cons_append, run, hstep]
+      simp only
+      rw [ih (acc ++ [d]) rest (by simp) (fun x hx => hd x (by simp [hx]))]
+      simp [List.append_assoc]
+  have hs1 : step ⟨cur, stack, .text rb⟩ '&' = .ok ⟨cur, stack, .ent []⟩ := by
+    simp [step, stepText, hne]
+  have hs2 : step ⟨cur, stack, .ent []⟩ c0 = .ok ⟨cur, stack, .ent [c0]⟩ := by
+    simp [step, stepEnt, hsemi0, hhash0, h0]
+  rw [List.cons_append, run, hs1]
+  simp only
+  rw [List.cons_append, run, hs2]
+  simp only
+  rw [key cs [c0] [';'] (by simp) hcs]
+  simp [run, step, stepEnt, hdec, addData]
+
+theorem ReadsIn.escChar {tb : List (Nat × Str)} (htb : tableOk tb = true) (c : Char) (hc : isXmlChar c = true) :
+    ReadsIn (escChar tb c) [c] [] := by
+  simp only [tableOk, Bool.and_eq_true, List.all_eq_true] at htb
+  obtain ⟨⟨⟨hall, hlt⟩, hamp⟩, hgt⟩ := htb
+  unfold Xml.escChar
+  cases hl : lookupTab c.toNat tb with
+  | some e =>
+    simp only
+    have hmem := lookupTab_mem hl
+    have hok := hall _ hmem
+    rcases entryOk_cases hok with ⟨hn, he⟩ | ⟨hn, he⟩ | ⟨hn, he⟩ | ⟨hn, he⟩ | ⟨hn, he⟩
+    · have : c = '<' := Char.toNat_inj.1 (by rw [hn]; rfl)
+      subst this; subst he
+      exact reads_entity ['l', 't'] '<' 'l' ['t'] rfl (by decide) (by decide) (by decide)
+    · have : c = '>' := Char.toNat_inj.1 (by rw [hn]; rfl)
+      subst this; subst he
+      exact reads_entity ['g', 't'] '>' 'g' ['t'] rfl (by decide) (by decide) (by decide)
+    · have : c = '&' := Char.toNat_inj.1 (by rw [hn]; rfl)
+      subst this; subst he
+      exact reads_entity ['a', 'm', 'p'] '&' 'a' ['m', 'p'] rfl (by decide) (by decide) (by decide)
+    · have : c = '"' := Char.toNat_inj.1 (by rw [hn]; rfl)
+      subst this; subst he
+      exact reads_entity ['q', 'u', 'o', 't'] '"' 'q' ['u', 'o', 't'] rfl (by decide) (by decide) (by decide)
+    · have : c = '\'' := Char.toNat_inj.1 (by rw [hn]; rfl)
+      subst this; subst he
+      exact reads_entity ['a', 'p', 'o', 's'] '\'' 'a' ['p', 'o', 's'] rfl (by decide) (by decide) (by decide)
+  | none =>
+    simp only
+    apply ReadsIn.plain
+    intro d hd
+    have : d = c := by simpa using hd
+    subst this
+    refine ⟨hc, ?_, ?_, ?_⟩
+    · intro h; subst h; have h' : lookupTab 0x3C tb = none := hl; rw [h'] at hlt; simp at hlt
+    · intro h; subst h; have h' : lookupTab 0x26 tb = none := hl; rw [h'] at hamp; simp at hamp
+    · intro h; subst h; have h' : lookupTab 0x3E tb = none := hl; rw [h'] at hgt; simp at hgt
+
+theorem ReadsIn.escape {tb : List (Nat × Str)} (htb : tableOk tb = true) (s : Str) (hs : isXmlText s = true) :
+    ReadsIn (escape tb s) s [] := by
+  induction s with
+  | nil => exact ReadsIn.nil
+  | cons c s ih =>
+    simp only [isXmlText, List.all_cons, Bool.and_eq_true] at hs
+    have h1 := ReadsIn.escChar htb c hs.1
+    have h2 := ih (by simpa [isXmlText] using hs.2)
+    have := ReadsIn.append h1 h2
+    simpa [Xml.escape] using this
+
+/-! ### `str.strip()` -/
+
+def AllSpace (w : Str) : Prop := ∀ c ∈ w, isPySpace c = true
+
+theorem AllSpace.append {a b : Str} (ha : AllSpace a) (hb : AllSpace b) : AllSpace (a ++ b) := by
+  intro c hc
+  rcases List.mem_append.1 hc with h | h
+  · exact ha c h
+  · exact hb c h
+
+theorem Blank.allSpace {w : Str} (h : Blank w) : AllSpace w := by
+  intro c hc
+  rcases h c hc with rfl | rfl <;> decide
+
+theorem dropWhile_all {α} (p : α → Bool) (e s : List α) (h : ∀ x ∈ e, p x = true) :
+    (e ++ s).dropWhile p = s.dropWhile p := by
+  induction e with
+  | nil => rfl
+  | cons x e ih =>
+    have hx : p x = true := h x (by simp)
+    simp [hx]
+    exact ih (fun y hy => h y (by simp [hy]))
+
+theorem dropWhile_nil_of_all {α} (p : α → Bool) (e : List α) (h : ∀ x ∈ e, p x = true) : e.dropWhile p = [] := by
+  have := dropWhile_all p e [] h
+  simpa using this
+
+theorem dropWhile_append_of_cons {α} (p : α → Bool) (m b : List α) (x : α) (r : List α)
+    (h : m.dropWhile p = x :: r) : (m ++ b).dropWhile p = x :: r ++ b := by
+  induction m with
+  | nil => simp at h
+  | cons y m ih =>
+    by_cases hy : p y = true
+    · simp only [List.cons_append, List.dropWhile_cons, hy, if_true] at h ⊢
+      exact ih h
+    · simp only [List.cons_append, List.dropWhile_cons, hy] at h ⊢
+      simp at h ⊢
+      rw [← h.1, ← h.2]
+      simp
+
+theorem dropWhile_head_false {α} (p : α → Bool) (m : List α) (x : α) (r : List α)
+    (h : m.dropWhile p = x :: r) : p x = false := by
+  induction m with
+  | nil => simp at h
+  | cons y m ih =>
+    by_cases hy : p y = true
+    · simp only [List.dropWhile_cons, hy, if_true] at h; exact ih h
+    · simp only [List.dropWhile_cons, hy] at h
+      simp at h
+      rw [← h.1]; simpa using hy
+
+theorem all_of_dropWhile_nil {α} (p : α → Bool) (l : List α) (h : l.dropWhile p = []) : ∀ x ∈ l, p x = true := by
+  induction l with
+  | nil => intro x hx; simp at hx
+  | cons y l ih =>
+    by_cases hy : p y = true
+    · simp only [List.dropWhile_cons, hy, if_true] at h
+      intro x hx
+      rcases List.mem_cons.1 hx with rfl | hx
+      · exact hy
+      · exact ih h x hx
+    · simp [List.dropWhile_cons, hy] at h
+
+theorem mem_takeWhile_true {α} (p : α → Bool) (l : List α) : ∀ x ∈ l.takeWhile p, p x = true := by
+  induction l with
+  | nil => intro x hx; simp at hx
+  | cons y l ih =>
+    intro x hx
+    by_cases hy : p y = true
+    · simp only [List.takeWhile_cons, hy, if_true] at hx
+      rcases List.mem_cons.1 hx with rfl | hx
+      · exact hy
+      · exact ih x hx
+    · simp [List.takeWhile_cons, hy] at hx
+
+theorem split_rev_dropWhile {α} (p : α → Bool) (l : List α) :
+    l = (l.reverse.dropWhile p).reverse ++ (l.reverse.takeWhile p).reverse := by
+  have h2 : l.reverse.takeWhile p ++ l.reverse.dropWhile p = l.reverse := List.takeWhile_append_dropWhile
+  calc l = l.reverse.reverse := by rw [List.reverse_reverse]
+    _ = (l.reverse.takeWhile p ++ l.reverse.dropWhile p).reverse := by rw [h2]
+    _ = _ := by rw [List.reverse_append]
+
+theorem stripWs_allSpace {w : Str} (h : AllSpace w) : stripWs w = [] := by
+  unfold stripWs
+  rw [dropWhile_nil_of_all _ _ h]
+  rfl
+
+theorem stripWs_surround (a m b : Str) (ha : AllSpace a) (hb : AllSpace b) :
+    stripWs (a ++ m ++ b) = stripWs m := by
+  cases hm : m.dropWhile isPySpace with
+  | nil =>
+    have hmall : AllSpace m := by
+      intro c hc
+      exact all_of_dropWhile_nil _ _ hm c hc
+    rw [stripWs_allSpace hmall, stripWs_allSpace ((ha.append hmall).append hb)]
+  | cons x r =>
+    unfold stripWs
+    rw [List.append_assoc, dropWhile_all _ a _ ha, dropWhile_append_of_cons _ m b x r hm, hm]
+    rw [List.reverse_append, dropWhile_all _ b.reverse _ (by intro c hc; exact hb c (by simpa using hc))]
+
+theorem stripWs_id_of_ends (c d : Char) (m : Str) (hc : isPySpace c = false) (hd : isPySpace d = false) :
+    stripWs (c :: m ++ [d]) = c :: m ++ [d] := by
+  unfold stripWs
+  simp [hc, hd, List.reverse_append]
+
+theorem stripWs_decomp (s : Str) : ∃ a b, s = a ++ stripWs s ++ b ∧ AllSpace a ∧ AllSpace b := by
+  refine ⟨s.takeWhile isPySpace, (((s.dropWhile isPySpace).reverse).takeWhile isPySpace).reverse, ?_, ?_, ?_⟩
+  · unfold stripWs
+    have h1 : s = s.takeWhile isPySpace ++ s.dropWhile isPySpace := (List.takeWhile_append_dropWhile).symm
+    have h3 := split_rev_dropWhile isPySpace (s.dropWhile isPySpace)
+    rw [List.append_assoc, ← h3, ← h1]
+  · intro c hc
+    exact mem_takeWhile_true _ _ c hc
+  · intro c hc
+    exact mem_takeWhile_true _ _ c (by simpa using hc)
+
+theorem stripWs_noSpace (s : Str) (h : ∀ c ∈ s, isPySpace c = false) : stripWs s = s := by
+  cases s with
+  | nil => rfl
+  | cons c m =>
+    rcases List.eq_nil_or_concat m with rfl | ⟨m', d, rfl⟩
+    · unfold stripWs; simp [h c (by simp)]
+    · have := stripWs_id_of_ends c d m' (h c (by simp)) (h d (by simp))
+      simpa using this
+
+/-! ### CDATA -/
+
+theorem startsWith_split {s p : Str} (h : startsWith s p = true) : ∃ r, s = p ++ r := by
+  induction p generalizing s with
+  | nil => exact ⟨s, rfl⟩
+  | cons x p ih =>
+    cases s with
+    | nil => simp [startsWith] at h
+    | cons c s =>
+      simp only [startsWith, Bool.and_eq_true, beq_iff_eq] at h
+      obtain ⟨r, hr⟩ := ih h.2
+      exact ⟨r, by rw [h.1, hr]; rfl⟩
+
+theorem isInfix_tail {p : Str} {c : Char} {s : Str} (h : isInfix p (c :: s) = false) : isInfix p s = false := by
+  simp only [isInfix, Bool.or_eq_false_iff] at h
+  exact h.2
+
+theorem isInfix_head {p : Str} {c : Char} {s : Str} (h : isInfix p (c :: s) = false) : startsWith (c :: s) p = false := by
+  simp only [isInfix, Bool.or_eq_false_iff] at h
+  exact h.1
+
+/-- inside a CDATA section: everything up to the first `]]>` is data -/
+theorem run_cdata (cur : Frame) (stack : List Frame) (inner : Str) (rb : Nat)
+    (hx : ∀ c ∈ inner, isXmlChar c = true)
+    (hno : isInfix [']', ']', '>'] (List.replicate rb ']' ++ inner) = false) :
+    run ⟨cur, stack, .cdata rb⟩ (inner ++ [']', ']', '>'])
+      = .ok ⟨⟨cur.name, cur.data ++ (List.replicate rb ']' ++ inner), cur.kids⟩, stack, .text 0⟩ := by
+  induction inner generalizing cur rb with
+  | nil =>
+    simp [run, step, stepCdata, addData]
+  | cons c inner ih =>
+    have hxc := hx c (by simp)
+    have hx' : ∀ d ∈ inner, isXmlChar d = true := fun d hd => hx d (by simp [hd])
+    by_cases hb : c = ']'
+    · subst hb
+      have hstep : step ⟨cur, stack, .cdata rb⟩ ']' = .ok ⟨cur, stack, .cdata (rb + 1)⟩ := by
+        simp [step, stepCdata]
+      rw [List.cons_append, run, hstep]
+      simp only
+      have hrep : List.replicate rb ']' ++ ']' :: inner = List.replicate (rb + 1) ']' ++ inner := by
+        rw [List.replicate_succ', List.append_assoc]; rfl
+      rw [ih cur (rb + 1) hx' (by rw [← hrep]; exact hno), hrep]
+    · have hcr : c ≠ '\r' := by intro h; subst h; revert hxc; decide
+      have hgt : ¬ (c = '>' ∧ rb ≥ 2) := by
+        rintro ⟨h1, h2⟩
+        subst h1
+        -- `]]>` would start at position rb - 2
+        have key : ∀ n (t : Str), isInfix [']', ']', '>'] (List.replicate (n + 2) ']' ++ '>' :: t) = true := by
+          intro n t
+          induction n with
+          | zero => simp [isInfix, startsWith]
+          | succ n ihn =>
+            rw [List.replicate_succ, List.cons_append, isInfix, ihn]; simp
+        obtain ⟨n, rfl⟩ : ∃ n, rb = n + 2 := ⟨rb - 2, by omega⟩
+        rw [key n inner] at hno
+        exact absurd hno (by simp)
+      have hstep : step ⟨cur, stack, .cdata rb⟩ c
+          = .ok ⟨⟨cur.name, cur.data ++ (List.replicate rb ']' ++ [c]), cur.kids⟩, stack, .cdata 0⟩ := by
+        by_cases h1 : c = '>'
+        · subst h1
+          have : ¬ rb ≥ 2 := fun h => hgt ⟨rfl, h⟩
+          simp [step, stepCdata, this, addData, hxc]
+        · simp [step, stepCdata, hb, h1, hcr, hxc, addData]
+      rw [List.cons_append, run, hstep]
+      simp only
+      have hno' : isInfix [']', ']', '>'] (List.replicate 0 ']' ++ inner) = false := by
+        have : ∀ n, isInfix [']', ']', '>'] (List.replicate n ']' ++ c :: inner) = false → isInfix [']', ']', '>'] inner = false := by
+          intro n
+          induction n with
+          | zero => intro h; exact isInfix_tail h
+          | succ n ihn => intro h; rw [List.replicate_succ, List.cons_append] at h; exact ihn (isInfix_tail h)
+        simpa using this rb hno
+      rw [ih _ 0 hx' hno']
+      simp [List.append_assoc]
+
+theorem isPySpace_plain {c : Char} (h1 : isPySpace c = true) (h2 : isXmlChar c = true) : Plain c := by
+  refine ⟨h2, ?_, ?_, ?_⟩ <;> (intro h; subst h; revert h1; decide)
+
+/-- shape of a value that passes the CDATA test -/
+theorem cdata_shape {cfg : Cfg} (hcfg : cfgOk cfg = true) {s : Str} (h : isCdataValue cfg s = true) :
+    ∃ a inner b, s = a ++ (cfg.copen ++ inner ++ cfg.cclose) ++ b ∧ AllSpace a ∧ AllSpace b
+      ∧ cdataInner (stripWs s) = inner ∧ isInfix [']', ']', '>'] inner = false := by
+  simp only [cfgOk, Bool.and_eq_true, decide_eq_true_eq] at hcfg
+  obtain ⟨⟨_, ho⟩, hc⟩ := hcfg
+  simp only [isCdataValue, Bool.and_eq_true, Bool.not_eq_true'] at h
+  obtain ⟨⟨h1, h2⟩, h3⟩ := h
+  obtain ⟨a, b, hs, ha, hb⟩ := stripWs_decomp s
+  obtain ⟨r, hr⟩ := startsWith_split h1
+  rw [ho] at hr
+  -- the closing marker lies inside `r`
+  have hr3 : ∃ inner, r = inner ++ [']', ']', '>'] := by
+    rw [hr, hc] at h2
+    simp only [endsWith, List.reverse_append, List.reverse_cons, List.reverse_nil, List.nil_append, List.cons_append] at h2
+    cases hrr : r.reverse with
+    | nil => rw [hrr] at h2; simp [startsWith] at h2
+    | cons x t =>
+      cases t with
+      | nil => rw [hrr] at h2; simp [startsWith] at h2
+      | cons y t =>
+        cases t with
+        | nil => rw [hrr] at h2; simp [startsWith] at h2
+        | cons z t =>
+          rw [hrr] at h2
+          simp only [List.cons_append, startsWith, Bool.and_eq_true, beq_iff_eq] at h2
+          refine ⟨t.reverse, ?_⟩
+          have := congrArg List.reverse hrr
+          simp only [List.reverse_reverse, List.reverse_cons, List.append_assoc, List.cons_append, List.nil_append] at this
+          rw [this, h2.1, h2.2.1, h2.2.2.1]
+  obtain ⟨inner, hin⟩ := hr3
+  have hinner : cdataInner (stripWs s) = inner := by
+    rw [hr, hin]
+    simp [cdataInner]
+  refine ⟨a, inner, b, ?_, ha, hb, hinner, ?_⟩
+  · rw [ho, hc]
+    rw [hr, hin] at hs
+    simpa [List.append_assoc] using hs
+  · rw [hinner, hc] at h3
+    exact h3
+
+theorem ReadsIn.cdataValue {cfg : Cfg} (hcfg : cfgOk cfg = true) {s : Str} (h : isCdataValue cfg s = true)
+    (hx : isXmlText s = true) :
+    ∃ a b, AllSpace a ∧ AllSpace b ∧ ReadsIn s (a ++ cdataInner (stripWs s) ++ b) [] := by
+  obtain ⟨a, inner, b, hs, ha, hb, hinner, hno⟩ := cdata_shape hcfg h
+  simp only [cfgOk, Bool.and_eq_true, decide_eq_true_eq] at hcfg
+  obtain ⟨⟨_, ho⟩, hc⟩ := hcfg
+  have hxall : ∀ c ∈ s, isXmlChar c = true := by simpa [isXmlText] using hx
+  refine ⟨a, b, ha, hb, ?_⟩
+  rw [hinner]
+  have hxs : ∀ c ∈ a ++ (cfg.copen ++ inner ++ cfg.cclose) ++ b, isXmlChar c = true := by rw [← hs]; exact hxall
+  have hA : ReadsIn a a [] := ReadsIn.plain a (fun c hc => isPySpace_plain (ha c hc) (hxs c (by simp [hc])))
+  have hB : ReadsIn b b [] := ReadsIn.plain b (fun c hc => isPySpace_plain (hb c hc) (hxs c (by simp [hc])))
+  have hM : ReadsIn (cfg.copen ++ inner ++ cfg.cclose) inner [] := by
+    intro cur stack rb hst
+    refine ⟨0, ?_⟩
+    have hne : stack.isEmpty = false := by cases stack <;> simp_all
+    rw [ho, hc]
+    have hpre : run ⟨cur, stack, .text rb⟩ (['<', '!', '[', 'C', 'D', 'A', 'T', 'A', '['] ++ (inner ++ [']', ']', '>']))
+        = run ⟨cur, stack, .cdata 0⟩ (inner ++ [']', ']', '>']) := by
+      simp [run, step, stepText, stepLt, stepBang, bangTarget, hne]
+    rw [List.append_assoc, hpre]
+    rw [run_cdata cur stack inner 0 (fun c hc' => hxs c (by simp [hc'])) (by simpa using hno)]
+    simp
+  have := ReadsIn.append (ReadsIn.append hA hM) hB
+  rw [hs]
+  simpa using this
+
 end N0.Xml
